@@ -20,6 +20,7 @@ ALSO = ("Also not acceptable any more (seen many times): pointers into cached da
         "substring tests on rule text, white space inside injected values, empty tag literals, local types inside functions, particular integer constants (100, 10, 32, 64, 16), "
         "odd map keys, multi-byte separators, '%' or '@' in tag values, unbalanced quotes in literals, duplicate neighbouring fields, long tag names, tolerance in float comparison, white-space-only values, "
         "bracket characters inside in/include options, lazily created package state, reference cycles between types, two-phase locking in Load, temp-file names, worker pools in the CLI, the idcard check digit, JSON longer than 256 bytes, float rendering, "
+        "slice capacity, non-ASCII digits or look-alike characters, func/chan/complex fields, empty maps with wrong key types, capacity-0 caches, empty Set calls, the ErrEndFlag variable, rule-less URL parameters, query-only URLs, leaked locks, two rule maps to Struct, sorting callers' slices, aliased pointers, flushing per element, //line directives, interpreted string literals, repeated @tag markers, first-key overrides, leading white space in files, zero-size structs, scratch-buffer flush thresholds, arrays under required/exist, GetOr-style defaults, negative eq bounds, e-mail domains without a dot, read-only or unreadable files, missing directories and bad glob patterns, "
         "group keys, a second '?' in a URL, trailing data after JSON, messages containing '=', unexported fields named by a rule map, nil interfaces, control characters, multi-line comments, exit status / && short-circuits, empty slices. "
         "First read ALL non-test source files and the README; make a list of every function, branch and documented behaviour relevant to this property "
         "that NONE of the items above touches, and pick from that list. Prefer faults in code paths that look boring (helpers in common.go / init.go / "
